@@ -769,7 +769,7 @@ def check_c09(run, case, svg, tikz, report=None):
         if a["color"] != b["color"]:
             bad("link_colour", {"link": i, "svg": a["color"], "tikz": b["color"]})
     for i, (a, b) in enumerate(zip(svg["dots"], tikz["dots"])):
-        if not near(a["pos"], b["pos"], 5.0000001e-7):  # TikZ prints six decimals
+        if not near(a["pos"], b["pos"], 5e-7 + 1e-9):  # TikZ prints six decimals (half a unit of the 6th + float noise)
             bad("dot_position", {"dot": i, "svg": a["pos"], "tikz": b["pos"]})
         if a["color"] != b["color"]:
             bad("dot_colour", {"dot": i, "svg": a["color"], "tikz": b["color"]})
